@@ -164,7 +164,7 @@ def run(ck):
                 ok = lib.holds(ls.get((e.block, e.idx)), LOCK, "this") or lib.caller_holds(prog, f, LOCK, "this")
                 ck.ob("C06-R2", "toWrite@%s" % f.base.replace(T, ""), ok, e.loc, f, "under toWriteLock" if ok else "access to toWrite without toWriteLock")
             elif e["k"] == "use" and (e.get("v"), e.get("vd")) in alias:
-                ok = lib.holds(ls.get((e.block, e.idx)), LOCK, "this")
+                ok = lib.holds(ls.get((e.block, e.idx)), LOCK, "this") or lib.caller_holds(prog, f, LOCK, "this")
                 ck.ob("C06-R2", "alias '%s'@%s" % (e["v"], f.base.replace(T, "")), ok, e.loc, f,
                       "under toWriteLock" if ok else "'%s' refers into toWrite but is used after the lock was released" % e["v"])
         # synchronous lambdas inherit the lock context of their call sites
